@@ -889,6 +889,9 @@ func policyServer() *httptest.Server {
 			json.NewEncoder(w).Encode(map[string]any{"result": map[string]any{"allow": false, "errors": []string{"caller is not permitted"}}})
 		case "deny401":
 			json.NewEncoder(w).Encode(map[string]any{"result": map[string]any{"allow": false, "errors": []string{"token is expired"}}})
+		case "deny-silent":
+			// denied without an explanation, but with the identity the policy resolved
+			json.NewEncoder(w).Encode(map[string]any{"decision_id": "d-2", "result": map[string]any{"allow": false, "sub": d.Sub, "roles": d.Roles, "allowed_keys": d.AllowedKeys}})
 		case "allow":
 			json.NewEncoder(w).Encode(map[string]any{"decision_id": "d-1", "result": map[string]any{"allow": true, "sub": d.Sub, "roles": d.Roles, "allowed_keys": d.AllowedKeys, "claims": map[string]any{"iss": "verif"}}})
 		default:
@@ -931,7 +934,7 @@ func TestC04_Policy(t *testing.T) {
 		for i := 0; i < nreq; i++ {
 			q := genReq(t, c)
 			q.Cred, q.HeaderCred, q.XFF = -1, -1, nil
-			d := decision{Kind: rapid.SampledFrom([]string{"allow", "allow", "allow", "deny", "deny401", "garbage", "http500", "none"}).Draw(t, "decision"), Sub: "user@example"}
+			d := decision{Kind: rapid.SampledFrom([]string{"allow", "allow", "allow", "deny", "deny-silent", "deny401", "garbage", "http500", "none"}).Draw(t, "decision"), Sub: "user@example"}
 			d.Roles = genRoles(t, "proles", true)
 			if rapid.Bool().Draw(t, "hasallowedkeys") {
 				d.AllowedKeys = []string{rapid.SampledFrom(keyNames).Draw(t, "allowedkey")}
@@ -966,9 +969,9 @@ func TestC04_Policy(t *testing.T) {
 					if got.Status != 401 {
 						fail(t, name, c, q, "decision %s: status %d, want 401", d.Kind, got.Status)
 					}
-				case "deny":
+				case "deny", "deny-silent":
 					if got.Status != 403 {
-						fail(t, name, c, q, "decision deny: status %d, want 403", got.Status)
+						fail(t, name, c, q, "decision %s: status %d, want 403", d.Kind, got.Status)
 					}
 				default:
 					if got.Status < 400 {
